@@ -6,8 +6,9 @@ Specification vocabulary for the C07 theorems about `Model/Fec` (core Lean only)
   `ReconstructData` returns the `d` data shards from ANY sub-family of at least `d` shards of a
   codeword.  `Lemmas/RS.lean` proves (Mathlib) that the systematic Vandermonde construction over
   any field has this property in matrix form (`decode_encode`, `data_determined`).  The executable
-  GF(2^8) instance `Fec.rsNew` is NOT proved lawful (GF(2^8) is not proved to be a field here);
-  it is tied to klauspost/reedsolomon by byte-exact correspondence on every run.
+  GF(2^8) instance `Fec.rsNew` is proved lawful in `Lemmas/RSBridge.rsNew_lawful`
+  (`Props/C07Field.C07_rsNew_lawful`); it is tied to klauspost/reedsolomon by byte-exact
+  correspondence on every run.
 * `Group`: a genuine FEC group as the sender's encoder emits it — `d` data bodies
   (`size | payload`), placed at ids `base … base + n − 1`.
 -/
@@ -20,12 +21,19 @@ open KcpVerif.Fec KcpVerif.Gen
 def mask (present : List Bool) (cw : List Bytes) : List (Option Bytes) :=
   List.zipWith (fun b s => if b then some s else none) present cw
 
-/-- list-level MDS law of a codec constructor -/
+/-- list-level MDS law of a codec constructor, for the ratios the FEC layer accepts
+    (`1 ≤ d`, `1 ≤ p`, `d + p ≤ 256`: `newFECEncoder`/`newFECDecoder` return `nil` otherwise).
+    The range restriction is essential: without it the law is unsatisfiable (no `[302, 2]` MDS code
+    exists over a 256-letter alphabet), and every theorem assuming it would be vacuous.
+    `Props/C07Field.C07_rsNew_lawful` proves it for the executable GF(2^8) instance. -/
 structure Lawful (C : CodecNew) : Prop where
-  enc_length : ∀ (d p : Nat) (data : List Bytes), data.length = d → ((C d p).enc data).length = p
-  enc_size : ∀ (d p L : Nat) (data : List Bytes), data.length = d → (∀ s ∈ data, s.length = L) →
+  enc_length : ∀ (d p : Nat) (data : List Bytes), 0 < d → 0 < p → d + p ≤ 256 →
+    data.length = d → ((C d p).enc data).length = p
+  enc_size : ∀ (d p L : Nat) (data : List Bytes), 0 < d → 0 < p → d + p ≤ 256 →
+    data.length = d → (∀ s ∈ data, s.length = L) →
     ∀ s ∈ (C d p).enc data, s.length = L
-  recon : ∀ (d p L : Nat) (data : List Bytes) (present : List Bool), 0 < d → 0 < L →
+  recon : ∀ (d p L : Nat) (data : List Bytes) (present : List Bool), 0 < d → 0 < p →
+    d + p ≤ 256 → 0 < L →
     data.length = d → (∀ s ∈ data, s.length = L) → present.length = d + p →
     d ≤ present.count true →
     (C d p).recon (mask present (data ++ (C d p).enc data)) = some data
